@@ -109,6 +109,26 @@ def _dense(draw):
     return "".join(parts)
 
 
+@st.composite
+def _long_prose_before(draw):
+    """>= 300 characters of uninterrupted plain words right before a supra / short-form / name-first citation, with
+    every alignment of the window edge against the last words (two names, varying word lengths)."""
+    words = ["the", "panel", "then", "turned", "to", "merits", "and", "found", "this", "reasoning", "persuasive", "because", "a", "of", "it"]
+    n = draw(st.integers(45, 110))
+    prose = " ".join(draw(st.lists(st.sampled_from(words), min_size=n, max_size=n)))
+    pad = "Z" * draw(st.integers(0, 14))
+    n1, n2 = draw(st.sampled_from(["Jones", "Kalomi", "Roe", "Bar"])), draw(st.sampled_from(["Smith", "Rentov", "Wade", "Foo"]))
+    v, p, pg = draw(st.integers(1, 600)), draw(st.integers(1, 900)), draw(st.integers(1, 900))
+    tail = draw(st.sampled_from([
+        f"{n1}, {n2}, supra, at {pg}.",
+        f"{n1}, {n2}, {v} U.S. at {pg}.",
+        f"{n1} {n2} at {pg}, {v} S.Ct. {p}.",
+        f"{n1}, {n2}, {v} supra, at {pg}.",
+        f"{n1} {n2}, {v} F.2d {p}, {pg} (1999).",
+    ]))
+    return {"text": f"{prose}. {pad} {tail}" if pad else f"{prose}. {tail}", "tokenizer": "ac", "append": None}
+
+
 def _cases():
     docs = st.one_of(legal.document(hostile=True), _dense(), _dense())
     return st.builds(lambda t, a: {"text": t, "tokenizer": "ac", "append": a}, docs, st.one_of(st.none(), st.integers(0, 4)))
@@ -116,4 +136,4 @@ def _cases():
 
 def phases(tier):
     n = 16000 if tier == "quick" else 800000
-    return [Phase("docs", "gen", strategy=_cases, n=n)]
+    return [Phase("docs", "gen", strategy=_cases, n=n), Phase("long-prose-before", "gen", strategy=_long_prose_before, n=n // 4)]
